@@ -85,3 +85,30 @@ def twins(valid_text: str, other_valid_body: str, bad_syntax_body: str, bad_lex_
     # shared 64-character prefix and suffix (a detector that samples the ends)
     out["ends_valid"] = valid_text[:64] + " /* x */ " + valid_text[64:]
     return out
+
+
+def crc32_id_pairs(prefixes=("", "ramp", "s"), n=6):
+    """pairs of unit ids of equal length whose hash KEYS (prefix + id) have the same crc32 - for caches
+    that index units by a weak fingerprint of the key"""
+    out = []
+    for j in range(n):
+        for pre in prefixes:
+            a = f"u-{j:02d}-" + "a" * 40
+            want = zlib.crc32((pre + a).encode())
+            base = (pre + f"v-{j:02d}-" + "a" * 40).encode()
+            c0 = zlib.crc32(base)
+            deltas = []
+            for i in range(40):
+                b = bytearray(base)
+                b[len(base) - 40 + i] = ord("b")
+                deltas.append(zlib.crc32(bytes(b)) ^ c0)
+            pick = _solve_gf2(deltas, want ^ c0)
+            if pick is None:
+                continue
+            b = bytearray(base)
+            for i in pick:
+                b[len(base) - 40 + i] = ord("b")
+            other = bytes(b).decode()[len(pre):]
+            assert zlib.crc32((pre + other).encode()) == want and len(other) == len(a) and other != a
+            out.append((pre, a, other))
+    return out
